@@ -57,6 +57,8 @@ type c14Case struct {
 	Filter  *engine.FilterSpec `json:"filter,omitempty"`
 	// SameName: the case presumes the harness lints registered under one name for all three kinds
 	SameName bool `json:"same_name,omitempty"`
+	// Late: the case presumes the first n late-registered harness lints (replays register them too)
+	Late int `json:"late,omitempty"`
 }
 
 func roundTripRS(rs *zlint.ResultSet) (string, string) {
@@ -244,6 +246,9 @@ func judgeC14Inner(rec *stats.Rec, c c14Case) (string, string) {
 		if c.SameName {
 			registerSameName()
 		}
+		if c.Late > 0 {
+			registerLate(c.Late)
+		}
 		var reg lint.Registry = lint.GlobalRegistry()
 		if c.Filter != nil {
 			o, err := c.Filter.Options()
@@ -271,6 +276,14 @@ func judgeC14Inner(rec *stats.Rec, c c14Case) (string, string) {
 			want[key(l.Meta)]++
 			wantName[l.Name] = true
 			total++
+		}
+		if c.Filter == nil {
+			// the model of what has been registered late: each of those lints is in the per-kind listings
+			for j := 0; j < c.Late && j < len(lateKinds); j++ {
+				if !wantName[lateName(j)] {
+					return "late-unlisted|" + lateKinds[j], lateName(j) + " was registered through the public API and is in no per-kind listing"
+				}
+			}
 		}
 		sc := bufio.NewScanner(&buf)
 		sc.Buffer(make([]byte, 1<<20), 1<<20)
@@ -536,6 +549,25 @@ func TestC14(t *testing.T) {
 					c := c14Case{What: "status-int", Status: st}
 					if rec.Report("c14", "marshal-aliases|status", fmt.Sprintf("status %d encoded as %q before and %q (err %v) after callers appended to earlier MarshalJSON results", st, want, b, err), c) {
 						t.Errorf("c14: MarshalJSON of status %d changes after appending to earlier results: %q -> %q (%v)", st, want, b, err)
+					}
+				}
+			}
+		}
+	}
+	// after additions: lints of every kind are registered one at a time while the registry is in use (listed, filtered,
+	// linted with ... between two registrations); after each one the listing has a line for every registered lint
+	// (the first six late lints: the later ones carry no source at all, and a listing line without a known source
+	// is not among the lines the statement speaks of)
+	if sh, _ := stats.Shard(); sh == 0 {
+		for i := 0; i < 6 && i < len(lateKinds); i++ {
+			registerLate(i + 1)
+			for _, f := range []*engine.FilterSpec{nil, {IncludeNames: []string{lateName(i)}}, {ExcludeNames: []string{"e_ca_country_name_missing"}}} {
+				c := c14Case{What: "writejson", Filter: f, Late: i + 1}
+				rec.Eval()
+				rec.Class("writejson_after_addition")
+				if sig, msg := judgeC14(rec, c); msg != "" {
+					if rec.Report("c14", "after-addition|"+sig, msg, c) {
+						t.Errorf("c14 listing after registering %s: %s: %s", lateName(i), sig, msg)
 					}
 				}
 			}
